@@ -59,7 +59,7 @@ fn check_slice(ctx: &mut Ctx, s: &[u8]) {
 }
 
 /// write Root[ leaf ] with the real writer, find the leaf's payload with RefCodec
-fn written_payload(ctx: &mut Ctx, id: u64, val: Val, opt: WOpt) -> Result<Vec<u8>, String> {
+fn written_payload(ctx: &mut Ctx, id: u64, val: Val, opt: WOpt) -> Result<(Vec<u8>, Vec<u8>), String> {
     let calls = vec![
         WCall::Tag(NItem::Start(ID_ROOT), WOpt::Default),
         WCall::Tag(NItem::Leaf(id, val), opt.clone()),
@@ -90,7 +90,7 @@ fn written_payload(ctx: &mut Ctx, id: u64, val: Val, opt: WOpt) -> Result<Vec<u8
             return Err(format!("output {}: size field of the leaf has {} bytes, {} were requested", hex(&out), h2.size_len, w));
         }
     }
-    Ok(inner[start..].to_vec())
+    Ok((inner[start..].to_vec(), out.clone()))
 }
 
 fn check_value(ctx: &mut Ctx, val: Val, opt: WOpt) {
@@ -109,7 +109,19 @@ fn check_value(ctx: &mut Ctx, val: Val, opt: WOpt) {
     };
     match written_payload(ctx, id, val.clone(), opt.clone()) {
         Err(e) => ctx.violation("writer/unusable-output", &d, &e),
-        Ok(p) => {
+        Ok((p, out)) => {
+            // the value as the real iterator hands it out, whatever the source's read sizes (the payload decoders are
+            // fed from the iterator's buffer)
+            for chunk in [usize::MAX, 1, 2, 3, 5, 8, 13] {
+                let steps = if chunk == usize::MAX { vec![] } else { vec![crate::obs::Step::Max(chunk); out.len() + 2] };
+                let (obs, _, _) = crate::obs::parse_script::<V>(&out, &crate::obs::Cfg::strict(), &steps);
+                ctx.transitions += obs.items.len() as u64 + 1;
+                let want_items = vec![NItem::Start(ID_ROOT), NItem::Leaf(id, val.clone()), NItem::End(ID_ROOT)];
+                if !obs.clean() || obs.item_list() != want_items {
+                    ctx.violation("writer/value-read-back-by-the-iterator-differs", &d, &format!("output {} read with {}-byte reads: {}", hex(&out), if chunk == usize::MAX { "whole".to_string() } else { chunk.to_string() }, obs.short()));
+                    break;
+                }
+            }
             // the statement fixes the width for integers only: a float may be stored in 4 bytes when that loses nothing
             let float_ok = matches!(val, Val::F(_)) && (p.len() == 4 || p.len() == 8);
             if p != want && !float_ok {
@@ -134,7 +146,7 @@ fn check_value(ctx: &mut Ctx, val: Val, opt: WOpt) {
 
 pub fn run(ctx: &mut Ctx) {
     let tail: &[u8] = ctx.tier.pick(&[0x00, 0x7f, 0x80, 0xff][..], &[0x00, 0x01, 0x7f, 0x80, 0xff][..]);
-    ctx.meta("rule", "cases: every byte slice of length 0-2, every slice of length 3-9 over the tail alphabet with a free first byte (thorough) through arr_to_u64 / arr_to_i64 / arr_to_f64 against RefCodec; every lattice value 2^j+{-2..2} of u64 and ±2^j+{-2..2} of i64 and the float classes written as Root[leaf] by the real TagWriter, with the default options and with every explicit size-field width 1-8 (write_advanced), payload located with RefCodec and required to be the minimal 1/2/4/8-byte encoding (integers; 4 or 8 bytes for floats) that the library decoders map back to the identical value. Non-trivial: slices that are empty, have length >= 8 or the top bit set; all writer values.");
+    ctx.meta("rule", "cases: every byte slice of length 0-2, every slice of length 3-9 over the tail alphabet with a free first byte (thorough) through arr_to_u64 / arr_to_i64 / arr_to_f64 against RefCodec; every lattice value 2^j+{-2..2} of u64 and ±2^j+{-2..2} of i64 and the float classes written as Root[leaf] by the real TagWriter, with the default options and with every explicit size-field width 1-8 (write_advanced), payload located with RefCodec and required to be the minimal 1/2/4/8-byte encoding (integers; 4 or 8 bytes for floats) that the library decoders map back to the identical value, and the output read by the real iterator (whole and with 1/2/3/5/8/13-byte reads) yields that value. Non-trivial: slices that are empty, have length >= 8 or the top bit set; all writer values.");
     ctx.meta("bounds", &format!("slice lengths 0..=9, tail alphabet {}", hex(tail)));
     ctx.meta("assumptions", "64-bit target || bytes other than the first are only shifted/added by the integer decoders (small tail alphabet for length >= 3)");
     for c in ["u64_value", "u64_error", "i64_value", "i64_error", "f64_value", "f64_error", "writer_values", "writer_values_with_explicit_size_width"] {
